@@ -1,7 +1,7 @@
 """Simulator-level correspondence: the real System (vh sim) vs the mirrored simulator (asdriver sim),
 bit-exact on times (f64 bit patterns), draws supplied by a twin Pcg64."""
 import os, random, re, struct, subprocess
-from .common import run_pair, VH, ENV, CORPUS, hash_text
+from .common import THOROUGH_SCALE, run_pair, VH, ENV, CORPUS, hash_text
 from .shrink import shrink
 from . import mc_suite
 
@@ -139,11 +139,60 @@ def gen_link_matrix(rng):
     return lines
 
 
+def gen_crash_burst(rng):
+    """several processes of one node send bursts of messages (and set timers), then the node is crashed while they are in flight;
+    later it is recovered and the rest of the system continues"""
+    nn = rng.choice([2, 3])
+    nodes = [f"n{i}" for i in range(nn)]
+    procs = [f"p{i}" for i in range(nn + rng.choice([1, 2, 3]))]
+    loc = {p: nodes[i % nn] for i, p in enumerate(procs)}
+    seed = rng.randrange(DEFAULT["seeds"])
+    lines = [f"seed {seed}", f"draws {draws_for(seed)}"] + [f"node {n}" for n in nodes] + [f"proc {p} {loc[p]}" for p in procs]
+    for p in procs:
+        k = rng.randint(2, 5)
+        sends = " ".join(f"S:m{rng.randint(1, 2)}:=x{p[1]}{j}:{rng.choice(procs)}" for j in range(k))
+        timers = " ".join(f"T:t{j}:{rng.randint(1, 4)}" for j in range(rng.randint(0, 2)))
+        lines.append(f"rule {p} 0 L:m0 0 {sends} {timers}".rstrip())
+        lines.append(f"rule {p} 0 M:m1 0 L:m3:$")
+        lines.append(f"rule {p} 0 M:m2 0 S:m1:$:{rng.choice(procs)}")
+        lines.append(f"rule {p} 0 T:t0 0 L:m4:=t")
+    a = rng.choice([1, 2]); lines.append(f"net delays {a} {a + rng.choice([1, 3])}")
+    if rng.random() < 0.3:
+        lines.append(f"net dupl {fbits(0.5)}")
+    down = set()
+    for _ in range(rng.randint(1, 2)):
+        up = [p for p in procs if loc[p] not in down]
+        for p in rng.sample(up, rng.randint(1, len(up))):
+            lines.append(f"local {p} m0 =go")
+        if rng.random() < 0.5:
+            lines.append(rng.choice(["step", "steps 2"]))
+        live = [n for n in nodes if n not in down]
+        if len(live) < 2:
+            break
+        n = rng.choice(live)
+        lines += [f"crash {n}", "steps 3"]
+        down.add(n)
+        if rng.random() < 0.6:
+            down.discard(n)
+            lines.append(f"recover {n}")
+            for p in procs:
+                if loc[p] == n:
+                    lines.append(f"proc {p} {n}")
+        lines.append("steps 6")
+    lines.append("obs")
+    return lines
+
+
 def block(name, lines):
     return f"begin {name}\n" + "".join(l + "\n" for l in lines) + "end\n"
 
 
 def compare(impl, model):
+    if impl and impl[0].endswith("-timeout"):
+        return "the implementation did not finish this scenario (no output within the stall limit)"
+    if model and model[0].endswith("-timeout"):
+        return ("the Lean model did not finish this scenario within the stall limit: its exploration is far larger than the "
+                f"implementation's ({sum(1 for l in impl if l.startswith('E '))} evaluated states)")
     for i, (a, b) in enumerate(zip(impl, model)):
         if a != b:
             return f"observation line {i} differs:\n#   impl:  {a[:700]}\n#   model: {b[:700]}"
@@ -170,7 +219,7 @@ def run(v, tier, seed, prof=None, n_quick=400, n_thorough=20000, name="sim_suite
     scen = []
     for c in corpus:
         scen += mc_suite.corpus_scenarios(c)
-    for i in range(n_quick if tier == "quick" else n_thorough):
+    for i in range(n_quick if tier == "quick" else n_thorough * THOROUGH_SCALE):
         scen.append((f"s{i}", gen_scenario(rng, prof)))
     if extra:
         scen += extra(rng, tier)
@@ -209,10 +258,10 @@ def run(v, tier, seed, prof=None, n_quick=400, n_thorough=20000, name="sim_suite
 def report(v, bad, monfail, name, monitor=None):
     for nm, lines, m in monfail[:3]:
         def fails(ls):
-            i, _ = run_pair("sim", [block("x", ls)], jobs=1)
+            i, _ = run_pair("sim", [block("x", ls)], jobs=1, stall=20)
             return monitor(ls, i.get("x", [])) is not None
         small = shrink(lines, fails, keep=lambda l: l.startswith(("seed", "draws", "node")), budget=150)
-        i, _ = run_pair("sim", [block("x", small)], jobs=1)
+        i, _ = run_pair("sim", [block("x", small)], jobs=1, stall=20)
         mm = monitor(small, i.get("x", [])) or m
         v.violation(f"{name}-monitor-{nm}.txt".replace(":", "_"),
                     f"# property {v.pid}: the implementation's own observations violate the property\n# {mm}\n"
@@ -227,10 +276,10 @@ def report(v, bad, monfail, name, monitor=None):
         return compare(a, b)
     for nm, lines, d in bad[:3]:
         def fails(ls):
-            i, m = run_pair("sim", [block("x", ls)], jobs=1)
+            i, m = run_pair("sim", [block("x", ls)], jobs=1, stall=20)
             return cmp_obs(i, m) is not None
         small = shrink(lines, fails, keep=lambda l: l.startswith(("seed", "draws", "node")), budget=150)
-        i, m = run_pair("sim", [block("x", small)], jobs=1)
+        i, m = run_pair("sim", [block("x", small)], jobs=1, stall=20)
         dd = cmp_obs(i, m) or d
         concrete = monitor(small, i.get("x", [])) if monitor else None
         v.violation(f"{name}-{nm}.txt".replace(":", "_"),
